@@ -170,20 +170,32 @@ class SubMonitor:
         self.stats = collections.Counter()
         self.subs = ()
         self.started = False
+        # children whose topics the statement requires: those the gateway knew when start() ran (restored by an earlier
+        # start_persistence()) and those presented since; children that only appear because start_persistence() runs
+        # AFTER start() (not the documented order) are not required
+        self.required_children = frozenset()
+        self.known_before = frozenset()
 
     def clone(self):
         other = SubMonitor(None)
         other.subs = self.subs
         other.started = self.started
+        other.required_children = self.required_children
+        other.known_before = self.known_before
         return other
 
     def key(self):
-        return (self.subs, self.started)
+        return (self.subs, self.started, self.required_children)
 
     def step(self, world, ev, obs):
         viols = []
+        now = frozenset((nid, cid) for nid, sensor in world.gw.sensors.items() for cid in sensor.children)
         if ev[0] == "start":
             self.started = True
+            self.required_children = self.required_children | now
+        elif self.started and ev[0] == "rx":
+            self.required_children = self.required_children | (now - self.known_before)
+        self.known_before = now
         self.subs = tuple(sorted({t for t, _ in world.all_subs}))
         if obs.exc is not None:
             viols.append(Violation(PROP, f"exception|{ev[0]}|{obs.exc['type']}@{obs.exc['site']}", f"{short(ev)} raised {obs.exc['type']}: {obs.exc['text']} ({obs.where})", None))
@@ -195,14 +207,13 @@ class SubMonitor:
         for n, c, a, s in itertools.product([1, 2, 9, 255], [0, 1, 255], [0, 1], [0, 17]):
             need.append(("presentation", mqtt_topic_of(prefix, n, c, 0, a, s)))
             need.append(("internal", mqtt_topic_of(prefix, n, c, 3, a, s)))
-        for nid, sensor in world.gw.sensors.items():
-            for cid in sensor.children:
-                for a, s in ((0, 2), (1, 47)):
-                    need.append(("set", mqtt_topic_of(prefix, nid, cid, 1, a, s)))
-                    need.append(("req", mqtt_topic_of(prefix, nid, cid, 2, a, s)))
-            if sensor.children:
-                need.append(("stream", mqtt_topic_of(prefix, nid, 255, 4, 0, 0)))
-                need.append(("stream", mqtt_topic_of(prefix, nid, 255, 4, 0, 2)))
+        for nid, cid in sorted(self.required_children):
+            for a, s in ((0, 2), (1, 47)):
+                need.append(("set", mqtt_topic_of(prefix, nid, cid, 1, a, s)))
+                need.append(("req", mqtt_topic_of(prefix, nid, cid, 2, a, s)))
+        for nid in sorted({n for n, _ in self.required_children}):
+            need.append(("stream", mqtt_topic_of(prefix, nid, 255, 4, 0, 0)))
+            need.append(("stream", mqtt_topic_of(prefix, nid, 255, 4, 0, 2)))
         for kind, topic in need:
             self.stats["required_topics_checked"] += 1
             if not any(mqtt_match(f, topic) for f in self.subs):
@@ -225,6 +236,10 @@ class SubSpec(explore.Spec):
         # other prefix shapes: empty, a single level, a prefix whose last level is empty
         for prefix in ("", "m", "mys/", "/"):
             out.append({"version": "2.2", "transport": "mqtt", "flavour": "sync", "restored": prefix == "mys/", "pubsub": "record", "cb": None, "in_prefix": prefix})
+        # start() and start_persistence() in either order (event 'startp'); children presented after start() on nodes that
+        # were restored late still get their topics and their node's stream topic
+        for flavour in ("sync", "async"):
+            out.append({"version": "2.2", "transport": "mqtt", "flavour": flavour, "restored": True, "pubsub": "record", "cb": None, "in_prefix": "in/x", "defer_start": True})
         return out
 
     def make_world(self, cfg):
@@ -245,9 +260,14 @@ class SubSpec(explore.Spec):
 
     def alphabet(self, cfg):
         t = alpha.lines("2.2")
-        return [("start",)] + [alpha.rx(t[n]) for n in ("PA", "PB", "CA0", "CA1", "CB0", "CU0", "SA0", "RA0")]
+        evs = [("start",)] + [alpha.rx(t[n]) for n in ("PA", "PB", "CA0", "CA1", "CB0", "CU0", "SA0", "RA0")]
+        if cfg.get("defer_start"):
+            evs += [("startp",), alpha.rx("5;9;0;0;3;late"), alpha.rx("7;1;0;0;3;first")]
+        return evs
 
     def roots(self, cfg):
+        if cfg.get("defer_start"):
+            return [()]
         return [(("start",),)]
 
     def new_monitor(self, cfg):
